@@ -178,7 +178,7 @@ package ast
 //@   ensures  cloinv(f) && rpOK(n)
 //@   ensures  [others] OthersKept()
 //@   ensures  [list-kept;C07] typeis[NodeList](n) ==> len(n.(NodeList)) == old(len(n.(NodeList)))
-//@   assigns  fields[parsley.Node](), elems[NodeList](), captures(f)
+//@   assigns  fields[parsley.Node]("token", "schema", "value", "pos", "children", "interpreter"), elems[NodeList](), captures(f)
 
 //@ func SetReaderPos(node parsley.Node, f func(parsley.Pos) parsley.Pos) (r parsley.Node)
 //@   props C07,C10
@@ -187,7 +187,7 @@ package ast
 //@   ensures  [ok] parsley.NodeOK(r) && within(r) && cloinv(f)
 //@   ensures  [others] OthersKept()
 //@   ensures  [moved;C10] typeis[EmptyNode](node) ==> node.ReaderPos() <= r.ReaderPos()
-//@   assigns  fields[parsley.Node](), elems[NodeList](), captures(f)
+//@   assigns  fields[parsley.Node]("token", "schema", "value", "pos", "children", "interpreter"), elems[NodeList](), captures(f)
 //@ callee f(pos parsley.Pos) (np parsley.Pos)
 //@   include ast.rpcallback
 
@@ -196,7 +196,7 @@ package ast
 //@   requires wfList(nl) && within(nl) && f != nil && cloinv(f)
 //@   ensures  wfList(nl) && within(nl) && cloinv(f)
 //@   ensures  [others] OthersKept()
-//@   assigns  fields[parsley.Node](), elems[NodeList](), captures(f)
+//@   assigns  fields[parsley.Node]("token", "schema", "value", "pos", "children", "interpreter"), elems[NodeList](), captures(f)
 //@   flag slow
 //@   assert_at entry [nalts] parsley.NAlts(parsley.Node(nl)) == len(nl)
 //@   assert_at entry [alts] forall k int :: 0 <= k && k < len(nl) ==> same(parsley.Alt(parsley.Node(nl), k), nl[k])
